@@ -49,11 +49,13 @@ type State struct {
 	freshAt map[string]int      // fresh object symbol -> allocation serial
 	serial  int
 	eqc     map[string]string // term -> simpler equal term (constants, parameters) known from assumptions
+	lazy     []*lazyU        // universally quantified assumptions over objects, instantiated on demand
+	lazyDone map[string]bool
 	collect *[]Term // when set, assumptions are collected here instead of the path condition (quantifier bodies)
 }
 
 func (s *State) clone() *State {
-	n := &State{pc: s.pc[:len(s.pc):len(s.pc)], pcSet: s.pcSet, dead: s.dead, neq: s.neq, eqc: s.eqc, frames: s.frames, freshAt: s.freshAt, serial: s.serial}
+	n := &State{pc: s.pc[:len(s.pc):len(s.pc)], pcSet: s.pcSet, dead: s.dead, neq: s.neq, eqc: s.eqc, frames: s.frames, freshAt: s.freshAt, serial: s.serial, lazy: s.lazy[:len(s.lazy):len(s.lazy)], lazyDone: s.lazyDone}
 	n.heap = make(map[string]Term, len(s.heap))
 	for k, v := range s.heap {
 		n.heap[k] = v
@@ -89,6 +91,7 @@ type Frame struct {
 	// return index bookkeeping for obligation names
 	contract *Contract
 	entry    *State // state at function entry (top frame only)
+	lastRet  *ssa.Return
 	args     []Value
 }
 
@@ -116,16 +119,23 @@ type Exec struct {
 	opts      map[string]string
 	assignedHeaps map[string]bool // heap arrays stored to by the top-level function (frame check)
 	inRel bool
+	lastRet *ssa.Return
+	caseLabels map[string]string // goal sub-term -> label of the case it proves (forallref case split)
+	callAssumesUsed map[string]bool
 }
 
 func NewExec(p *Program, st *Symtab, fnName string) (*Exec, error) {
-	fn := p.Funcs[normName(fnName)]
+	base := fnName
+	if i := strings.Index(base, "@"); i >= 0 {
+		base = base[:i] // kind-specific contract variant of a shared function
+	}
+	fn := p.Funcs[normName(base)]
 	if fn == nil {
 		return nil, fmt.Errorf("function %q not found", fnName)
 	}
 	ex := &Exec{prog: p, st: st, fn: fn, fnName: normName(fnName), layouts: NewLayouts(), heapSorts: map[string]string{},
 		bindings: map[string]types.Type{}, obN: map[string]int{}, maxPaths: 4000, callDepthLimit: 6, opts: map[string]string{},
-		assignedHeaps: map[string]bool{}}
+		assignedHeaps: map[string]bool{}, callAssumesUsed: map[string]bool{}, caseLabels: map[string]string{}}
 	if c := p.CF.Contracts[fnName]; c != nil {
 		ex.contract = c
 		ex.mode = c.Mode
@@ -162,7 +172,12 @@ func (ex *Exec) emit(s *State, kind, name string, goal Term, pos token.Pos, note
 	}
 	// one query per conjunct: smaller queries, and a failure names the clause that broke
 	if kind == "ensures" || kind == "invariant" || kind == "requires" || kind == "pool" {
-		if parts := conjuncts(goal); len(parts) > 1 {
+		if lbl, ok := ex.caseLabels[goal.S]; ok {
+			delete(ex.caseLabels, goal.S)
+			ex.emit(s, kind, name+"["+lbl+"]", goal, pos, note)
+			return
+		}
+		if parts := conjuncts1(goal); len(parts) > 1 {
 			for i, p := range parts {
 				ex.emit(s, kind, fmt.Sprintf("%s.%d", name, i+1), p, pos, note)
 			}
@@ -417,13 +432,34 @@ func (ex *Exec) checkPost(fr *Frame, s *State, results []Value, retIdx int) {
 		return
 	}
 	env := &SpecEnv{ex: ex, cur: s, old: fr.entry, vars: map[string]Value{}, results: results, fn: fr.fn}
+	// name suffix: which return statement (ordinal in source order) and the declared path keys
+	suffix := ""
+	if len(ex.contract.PathKeys) > 0 {
+		suffix = fmt.Sprintf("@ret#%d", ex.returnOrdinal(fr))
+		for _, pk := range ex.contract.PathKeys {
+			if pk.Src == "ret" {
+				continue // return ordinal only
+			}
+			func() {
+				defer func() { recover() }()
+				if c, ok := env.evalInt(pk.Expr).IntConst(); ok {
+					suffix += fmt.Sprintf("/%s=%s", pk.Src, c.String())
+				}
+			}()
+		}
+	}
 	for i, e := range ex.contract.Ensures {
 		label := e.Label
 		if label == "" {
 			label = fmt.Sprintf("ensures#%d", i+1)
 		}
 		g := env.evalProve(e.Expr)
-		ex.emit(s, "ensures", fmt.Sprintf("%s/%s/%s", ex.layer, ex.fnName, label), g, fr.fn.Pos(), fmt.Sprintf("return path %d: %s", retIdx, e.Src))
+		ex.emit(s, "ensures", fmt.Sprintf("%s/%s/%s%s", ex.layer, ex.fnName, label, suffix), g, fr.fn.Pos(), fmt.Sprintf("return path %d: %s", retIdx, e.Src))
+	}
+	if _, noalloc := ex.contract.Opts["noalloc"]; noalloc {
+		before := fr.entry.H(ex, "alloc", ArrSort(SRef, SBool))
+		after := s.H(ex, "alloc", ArrSort(SRef, SBool))
+		ex.emit(s, "ensures", fmt.Sprintf("%s/%s/noalloc", ex.layer, ex.fnName), Eq(before, after), fr.fn.Pos(), "the function allocates nothing")
 	}
 	if ex.contract.HasAssigns {
 		// frame: heap arrays outside the assigns clause are unchanged
@@ -592,6 +628,8 @@ func (ex *Exec) freshSlice(s *State, hint string, elem types.Type, isStr bool) V
 	// extent: the window [off, off+cap) lies inside the backing object; a nil slice has obj==null and cap==0
 	s.assume(Or(Eq(obj, Null), ICmp("<=", IAdd(off, cp), Select(bl, obj))))
 	s.assume(Implies(Eq(obj, Null), And(Eq(cp, IntC(0)), Eq(off, IntC(0)))))
+	// a byte slice handed in by the caller points into a byte object (ghost allocation type)
+	s.assume(Or(Eq(obj, Null), Eq(atypeOf(ex.st, obj), IntC(bytesTypeID))))
 	if isStr {
 		cp = ln
 	}
@@ -647,6 +685,9 @@ func (ex *Exec) runBlock(s *State, fr *Frame, b *ssa.BasicBlock, from int) {
 			var rs []Value
 			for _, r := range x.Results {
 				rs = append(rs, ex.val(fr, r))
+			}
+			if fr.top {
+				ex.lastRet = x
 			}
 			fr.ret(s, rs)
 			return
@@ -761,6 +802,9 @@ func (ex *Exec) atLoopHead(s *State, fr *Frame, b *ssa.BasicBlock, l *Loop) bool
 				st.names[phi.Comment] = v
 			}
 		}
+		if alias := loopAlias(l, spec); alias != nil {
+			st.names[spec.Var] = vals[alias]
+		}
 	}
 	if fromBack {
 		bindPhis(s, false)
@@ -789,7 +833,7 @@ func (ex *Exec) atLoopHead(s *State, fr *Frame, b *ssa.BasicBlock, l *Loop) bool
 	}
 	for cell := range mods.cells {
 		if old, ok := s.cells[cell]; ok {
-			s.cells[cell] = ex.havocLike(s, old, fmt.Sprintf("cell%d", cell))
+			s.cells[cell] = ex.havocLike(s, old, fmt.Sprintf("loop.cell%d", cell))
 		}
 	}
 	bindPhis(s, true)
@@ -833,8 +877,15 @@ func (ex *Exec) loopMods(fn *ssa.Function, l *Loop, spec *LoopSpec) loopMods {
 		for _, in := range b.Instrs {
 			switch x := in.(type) {
 			case *ssa.Store:
+				// stores into local cells (address-taken locals) do not touch the heap
+				root := ex.cellOfAddr(x.Addr)
+				if a, ok := root.(*ssa.Alloc); ok && ex.isCellAlloc(a) {
+					continue
+				}
+				if _, ok := root.(*ssa.FreeVar); ok {
+					continue
+				}
 				hasStore = true
-				_ = x
 			case *ssa.Call:
 				if !ex.pureCall(x) {
 					hasStore = true
@@ -954,11 +1005,7 @@ func (ex *Exec) pureCall(c *ssa.Call) bool {
 		return false
 	}
 	if f := c.Call.StaticCallee(); f != nil {
-		name := normName(f.RelString(ex.prog.SSA.Pkg))
-		if f.Origin() != nil {
-			name = normName(f.Origin().RelString(ex.prog.SSA.Pkg))
-		}
-		if ct := ex.prog.CF.Contracts[name]; ct != nil && ct.HasAssigns && len(ct.Assigns) == 0 {
+		if ct, _ := ex.contractFor(f); ct != nil && ct.HasAssigns && len(ct.Assigns) == 0 {
 			return true
 		}
 		switch f.String() {
@@ -1215,6 +1262,21 @@ func (ex *Exec) tryIfConvert(s *State, fr *Frame, b *ssa.BasicBlock, c Term) boo
 
 // conjuncts flattens a top-level conjunction.
 func conjuncts(t Term) []Term {
+	if strings.HasPrefix(t.S, "(=> ") {
+		// (=> g (and a b)) splits into (=> g a), (=> g b)
+		args := splitArgs(t.S)
+		if len(args) == 3 {
+			inner := conjuncts(Term{args[2], SBool})
+			if len(inner) > 1 {
+				var out []Term
+				for _, c := range inner {
+					out = append(out, Implies(Term{args[1], SBool}, c))
+				}
+				return out
+			}
+		}
+		return []Term{t}
+	}
 	if !strings.HasPrefix(t.S, "(and ") {
 		return []Term{t}
 	}
@@ -1266,8 +1328,65 @@ func (ex *Exec) matchLoop(fn *ssa.Function, c *Contract, l *Loop) *LoopSpec {
 	if sp := claimed[l]; sp != nil {
 		return sp
 	}
-	if sp := c.Loops[l.Ordinal]; sp != nil && sp.Var == "" {
+	if sp := c.Loops[l.Ordinal]; sp != nil && (sp.Var == "" || !used[sp]) {
+		// ordinal fallback (also for a named annotation whose variable was renamed: the
+		// annotation's name is then bound to the loop's controlling variable, see loopAlias)
 		return sp
+	}
+	return nil
+}
+
+// loopAlias: when an annotation names a variable that no longer exists, its name is bound
+// to the phi that controls the loop (the phi operand of the loop condition).
+func loopAlias(l *Loop, sp *LoopSpec) *ssa.Phi {
+	if sp.Var == "" {
+		return nil
+	}
+	var phis []*ssa.Phi
+	for _, in := range l.Head.Instrs {
+		phi, ok := in.(*ssa.Phi)
+		if !ok {
+			break
+		}
+		if phi.Comment == sp.Var {
+			return nil
+		}
+		phis = append(phis, phi)
+	}
+	// the loop condition is the If terminating the head block (possibly via a load/convert chain)
+	if len(l.Head.Instrs) > 0 {
+		if iff, ok := l.Head.Instrs[len(l.Head.Instrs)-1].(*ssa.If); ok {
+			var find func(v ssa.Value, d int) *ssa.Phi
+			find = func(v ssa.Value, d int) *ssa.Phi {
+				if d > 4 {
+					return nil
+				}
+				if p, ok := v.(*ssa.Phi); ok {
+					for _, q := range phis {
+						if q == p {
+							return p
+						}
+					}
+					return nil
+				}
+				if in, ok := v.(ssa.Instruction); ok {
+					for _, op := range in.Operands(nil) {
+						if *op != nil {
+							if p := find(*op, d+1); p != nil {
+								return p
+							}
+						}
+					}
+				}
+				return nil
+			}
+			if p := find(iff.Cond, 0); p != nil {
+				return p
+			}
+		}
+	}
+	if len(phis) > 0 {
+		return phis[0]
 	}
 	return nil
 }
@@ -1290,6 +1409,36 @@ func (s *State) addFrame(sym string, fi *frameInfo) {
 	s.frames = n
 }
 
+// guardedFrame is a frame(...) call found in a clause, with the implies-guards above it.
+type guardedFrame struct {
+	guards []ast.Expr
+	args   []ast.Expr
+}
+
+// collectFrames finds frame(...) calls under conjunctions and implies-consequents.
+func collectFrames(x ast.Expr, guards []ast.Expr, out *[]guardedFrame) {
+	switch n := x.(type) {
+	case *ast.ParenExpr:
+		collectFrames(n.X, guards, out)
+	case *ast.BinaryExpr:
+		if n.Op == token.LAND {
+			collectFrames(n.X, guards, out)
+			collectFrames(n.Y, guards, out)
+		}
+	case *ast.CallExpr:
+		if id, ok := n.Fun.(*ast.Ident); ok {
+			switch id.Name {
+			case "frame":
+				*out = append(*out, guardedFrame{guards: append([]ast.Expr{}, guards...), args: n.Args})
+			case "implies":
+				if len(n.Args) == 2 {
+					collectFrames(n.Args[1], append(append([]ast.Expr{}, guards...), n.Args[0]), out)
+				}
+			}
+		}
+	}
+}
+
 // frameArgs finds frame(...) conjuncts of a clause and returns their argument expressions.
 func frameArgs(x ast.Expr) ([]ast.Expr, bool) {
 	switch n := x.(type) {
@@ -1308,4 +1457,106 @@ func frameArgs(x ast.Expr) ([]ast.Expr, bool) {
 		}
 	}
 	return nil, false
+}
+
+// lazyU is an assumed formula "forall o: Ref. body(o)" that is not handed to the solver as
+// a quantifier but instantiated at the object terms the path actually touches (every
+// dereferenced reference, every skolem constant of a forallref goal, explicit reveal()).
+// Adding instances of an assumed universal is sound; which instances are added only
+// affects completeness.
+type lazyU struct {
+	id    int
+	name  string
+	body  ast.Expr
+	env   *SpecEnv
+	guard Term
+}
+
+var lazyCounter int
+
+func (s *State) instantiateAt(ex *Exec, t Term) {
+	if t.Sort != SRef || t.S == "null" || len(s.lazy) == 0 {
+		return
+	}
+	for _, lu := range s.lazy {
+		key := fmt.Sprintf("%d|%s", lu.id, t.S)
+		if s.lazyDone[key] {
+			continue
+		}
+		nd := make(map[string]bool, len(s.lazyDone)+1)
+		for k := range s.lazyDone {
+			nd[k] = true
+		}
+		nd[key] = true
+		s.lazyDone = nd
+		env := *lu.env
+		env.vars = make(map[string]Value, len(lu.env.vars)+1)
+		for k, v := range lu.env.vars {
+			env.vars[k] = v
+		}
+		env.vars[lu.name] = RefV{T: t}
+		var side []Term
+		c1, c2 := env.cur.collect, env.old.collect
+		env.cur.collect, env.old.collect = &side, &side
+		body := env.evalAssume(lu.body)
+		env.cur.collect, env.old.collect = c1, c2
+		s.assume(Implies(lu.guard, And(append(side, body)...)))
+	}
+}
+
+// isCellAlloc: the Alloc is modelled as a local cell (not as a heap object).
+func (ex *Exec) isCellAlloc(a *ssa.Alloc) bool {
+	elem := ex.subst(a.Type().Underlying().(*types.Pointer).Elem())
+	if isStruct(elem) && !isNodeRef(elem) && a.Heap && ex.isHeapStruct(elem) {
+		return false
+	}
+	if at, ok := elem.Underlying().(*types.Array); ok && isByteType(at.Elem()) && a.Heap {
+		return false
+	}
+	return true
+}
+
+// conjuncts1 splits one level of conjunction (or an implication over a conjunction).
+func conjuncts1(t Term) []Term {
+	if strings.HasPrefix(t.S, "(=> ") {
+		args := splitArgs(t.S)
+		if len(args) == 3 && strings.HasPrefix(args[2], "(and ") {
+			var out []Term
+			for _, c := range splitArgs(args[2])[1:] {
+				out = append(out, Implies(Term{args[1], SBool}, Term{c, SBool}))
+			}
+			return out
+		}
+		return []Term{t}
+	}
+	if !strings.HasPrefix(t.S, "(and ") {
+		return []Term{t}
+	}
+	var out []Term
+	for _, a := range splitArgs(t.S)[1:] {
+		out = append(out, Term{a, SBool})
+	}
+	return out
+}
+
+// returnOrdinal: 1-based index (in source order) of the Return instruction the frame is at.
+func (ex *Exec) returnOrdinal(fr *Frame) int {
+	if ex.lastRet == nil {
+		return 0
+	}
+	var rets []*ssa.Return
+	for _, b := range fr.fn.Blocks {
+		for _, in := range b.Instrs {
+			if r, ok := in.(*ssa.Return); ok {
+				rets = append(rets, r)
+			}
+		}
+	}
+	sort.SliceStable(rets, func(i, j int) bool { return rets[i].Pos() < rets[j].Pos() })
+	for i, r := range rets {
+		if r == ex.lastRet {
+			return i + 1
+		}
+	}
+	return 0
 }
